@@ -20,6 +20,9 @@ import (
 type c19Op struct {
 	Op string `json:"op"` // u8 u16 u32 u64 read peek peek16 len count
 	N  int    `json:"n,omitempty"`
+	// Rep > 1: the operation is carried out that many times in a row (each one checked): tens of thousands of reads
+	// on one reader without tens of thousands of entries in the case
+	Rep int `json:"rep,omitempty"`
 }
 
 type c19Case struct {
@@ -32,7 +35,7 @@ type c19Case struct {
 	BigLen int `json:"big_len,omitempty"`
 }
 
-const c19Rule = "case = buffer (0..64 octets, in 1 case of 16 a patterned buffer of 255..1 Mi octets around the 8-, 16- and 17-bit marks; window into a sentinel-filled array so cap>len) + 1..40 reader operations " +
+const c19Rule = "case = buffer (0..64 octets, in 1 case of 16 a patterned buffer of 255..1 Mi octets around the 8-, 16- and 17-bit marks; window into a sentinel-filled array so cap>len) + 1..40 reader operations (one in 40 repeated 255..70000 times) " +
 	"(Uint8/16/32/64, Read n, Peek n, PeekUint16, Len, ReadCount; n in 0..len+8 and huge values up to MaxInt); " +
 	"non-trivial = a failed read is later followed by a successful read and the sequence has >=1 peek; distinct by hash of the case"
 
@@ -58,7 +61,15 @@ func genC19(t *rapid.T) c19Case {
 				op.N = 0 // lengths come from unsigned wire fields: never negative
 			}
 		}
+
 		c.Ops = append(c.Ops, op)
+	}
+	if rapid.IntRange(0, 29).Draw(t, "rep") == 0 {
+		op := &c.Ops[rapid.IntRange(0, len(c.Ops)-1).Draw(t, "repidx")]
+		op.Rep = rapid.SampledFrom([]int{255, 256, 257, 32768, 65535, 65536, 65537, 70000}).Draw(t, "nrep")
+		if (op.Op == "read" || op.Op == "peek") && op.N > 1 {
+			op.N = rapid.IntRange(0, 1).Draw(t, "repn")
+		}
 	}
 	return c
 }
@@ -98,6 +109,7 @@ func runC19(c c19Case) (v verdict, sig string, err error) {
 	r := reader.NewReader(window)
 	pos := 0
 	failedRead, okAfterFail, peeks := false, false, 0
+	cheap := false
 	check := func(i int, what string) error {
 		if r.Len() != len(buf)-pos {
 			return fmt.Errorf("step %d (%s): Len()=%d, model %d", i, what, r.Len(), len(buf)-pos)
@@ -108,7 +120,7 @@ func runC19(c c19Case) (v verdict, sig string, err error) {
 		if r.Len()+r.ReadCount() != len(buf) {
 			return fmt.Errorf("step %d (%s): consumed+remaining=%d, buffer %d", i, what, r.Len()+r.ReadCount(), len(buf))
 		}
-		if !bytes.Equal(back, snapshot) {
+		if !cheap && !bytes.Equal(back, snapshot) {
 			return fmt.Errorf("step %d (%s): reader modified the buffer", i, what)
 		}
 		return nil
@@ -138,8 +150,28 @@ func runC19(c c19Case) (v verdict, sig string, err error) {
 		}
 		return nil
 	}
-	for i, op := range c.Ops {
+	var flat []c19Op
+	for _, op := range c.Ops {
+		n := 1
+		if op.Rep > 1 {
+			if op.Rep > 1<<20 {
+				return v, "", fmt.Errorf("bad case: rep")
+			}
+			n = op.Rep
+			v.label(op.Rep >= 65536, "op-repeated>=65536-times")
+		}
+		for k := 0; k < n; k++ {
+			// Rep of a flat entry: 1 = inside a repetition (the buffer-unmodified comparison is made at its end only)
+			fo := c19Op{Op: op.Op, N: op.N}
+			if n > 1 && k < n-1 {
+				fo.Rep = 1
+			}
+			flat = append(flat, fo)
+		}
+	}
+	for i, op := range flat {
 		var e error
+		cheap = op.Rep == 1
 		switch op.Op {
 		case "u8":
 			x, ge := r.Uint8()
